@@ -196,6 +196,17 @@ pub fn def(ctx: &Ctx) -> PropertyDef {
             let nthreads = p.threads.len();
             scenarios.push(crate::harness::ilv::program_scenario(p, crate::props::c03::ilv_oracle(), move |c| crate::harness::ilv::tier_cfg(c, nthreads)));
         }
+        // the deadline in force is the one of the last accepted TTL request, also when the worker or another client
+        // touches the same entry meanwhile (judged by C08's rule for TTL requests)
+        let programs = vec![
+            mk("ilv: put_ttl(1h) unawaited;upsert(v,ttl 10s)", vec![], vec![vec![Op::Put { k: 1, w: Some(30), ttl_ms: Some(3_600_000) }, ups(true, Some(30), Some(10_000), false)]]),
+            mk("ilv: upsert(ttl 500ms) || upsert(v)", vec![put_ttl(1, 30, 5000)], vec![vec![ups(false, None, Some(500), false)], vec![ups(true, None, None, false)]]),
+            mk("ilv: upsert(remove ttl) || upsert(v);upsert(v)", vec![put_ttl(1, 30, 5000)], vec![vec![ups(false, Some(30), None, true)], vec![ups(true, None, None, false), ups(true, None, None, false)]]),
+        ];
+        for p in programs {
+            let nthreads = p.threads.len();
+            scenarios.push(crate::harness::ilv::program_scenario(p, crate::props::c08::ilv_oracle(), move |c| crate::harness::ilv::tier_cfg(c, nthreads)));
+        }
     }
     let mut assumptions = COMMON_ASSUMPTIONS.to_vec();
     assumptions.push("monotone harness clock; the instant now == expiry is left unspecified; no memory pressure (W = 10000)");
